@@ -120,7 +120,7 @@ def validate_reference(ctx, src, locs):
         return
     tree = ast.parse(src)
     for l in locs:
-        if l["dup"] or l["kind"] not in ("class", "function", "method"):
+        if l["dup"] or ambiguous(l, locs) or l["kind"] not in ("class", "function", "method"):
             continue
         obj = ns
         ok = True
